@@ -9,7 +9,10 @@ SPEC_FUNCS = {}     # qualname -> function
 
 
 class LoopSpec:
-    def __init__(self, inv, types=None, decreases=None, modifies=(), ghost=(), capture=None):
+    def __init__(self, inv, types=None, decreases=None, modifies=(), ghost=(), capture=None, original_order=False):
+        # original_order: for `for x in reversed(xs)` the invariant is stated over xs itself: after _i iterations the
+        # elements xs[len(xs)-_i:] have been consumed and `_it` is xs (not the reversed copy)
+        self.original_order = original_order
         self.inv, self.types, self.decreases = inv, dict(types or {}), decreases
         self.modifies, self.ghost = list(modifies), list(ghost)
         self.capture = dict(capture or {})   # ghost locals bound at loop entry: name -> fn(locals...) (usable in invariants and post)
@@ -34,6 +37,7 @@ class Contract:
         self.why = ""           # justification for assumed contracts
         self.ghost = {}          # ghost (skolem) parameters: arbitrary constants when verifying, universally quantified at call sites
         self.observe = {}        # name -> fn(params...) : observer terms whose model values are reported with counter-models
+        self.result_name = None   # fn(params...) -> ghost term naming the result at call sites (determinism assumption, not verified)
         self.pure = False         # result is a function of the arguments and nothing is written: may be hoisted out of binders
         self.fresh_result = False  # the returned object is newly allocated by the function (checked when verifying)
         self.ghost_init = None  # fn(engine, state) -> None, sets up ghost state for verification
